@@ -54,6 +54,7 @@ class World:
         self.cache_factory = cache_factory
         self.nodes = {}  # repr(term) -> object, for terms built once
         self.effect_values = []
+        self.option_dicts = []  # (dictionary object handed to labrea, deep snapshot of it)
 
     # -- user callables --------------------------------------------------
     def _run(self, kind, name, f, args, kw=None):
@@ -366,8 +367,18 @@ class World:
         from labrea import WithDefaultOptions, WithOptions
 
         x = self.build(t[1])
-        P = copy.deepcopy(t[2])
+        P = self._given(t[2])
         return WithOptions(x, P) if t[3] else WithDefaultOptions(x, P)
+
+    def _given(self, d):
+        g = copy.deepcopy(d)
+        self.option_dicts.append((g, copy.deepcopy(d)))
+        return g
+
+    def mutated_option_dicts(self):
+        from .optspace import freeze
+
+        return [(g, snap) for g, snap in self.option_dicts if freeze(g) != freeze(snap)]
 
     def _cache(self, cid):
         from labrea.cache import MemoryCache, NoCache
@@ -423,9 +434,9 @@ class World:
         if p["dispatch"] is not None:
             kw["dispatch"] = self._dispatch(p["dispatch"])
         if p["options"] is not None:
-            kw["options"] = copy.deepcopy(p["options"])
+            kw["options"] = self._given(p["options"])
         if p["default_options"] is not None:
-            kw["default_options"] = copy.deepcopy(p["default_options"])
+            kw["default_options"] = self._given(p["default_options"])
         factory = abstractdataset if p["abstract"] else dataset
         d = factory(body, **kw)
         self.datasets[name] = (repr(t), d)
@@ -436,13 +447,13 @@ class World:
     def b_dswo(self, t):
         k = repr(t)
         if k not in self.nodes:
-            self.nodes[k] = self.build(t[1]).with_options(copy.deepcopy(t[2]))
+            self.nodes[k] = self.build(t[1]).with_options(self._given(t[2]))
         return self.nodes[k]
 
     def b_dswdo(self, t):
         k = repr(t)
         if k not in self.nodes:
-            self.nodes[k] = self.build(t[1]).with_default_options(copy.deepcopy(t[2]))
+            self.nodes[k] = self.build(t[1]).with_default_options(self._given(t[2]))
         return self.nodes[k]
 
     def b_helper(self, t):
